@@ -4,7 +4,7 @@ Every model receives an engine.Call and either appends result states through c.r
 or returns NotImplemented to fall through to inlining / the default havoc.
 Preconditions whose violation panics are recorded as obligations of kind PRECOND.
 """
-from absval import (Arr, BOT, Bot, Closure, Enum, FnItem, Int, Iter, Ref, Struct, Top, UNIT, ISIZE_MAX, int_range, join_val)
+from absval import (Arr, BOT, Bot, Closure, Enum, FnItem, Int, Iter, Ref, Struct, Top, UNIT, ISIZE_MAX, int_range, join_val, meet_val)
 from absint import Infeasible, get_at, set_at, int_leaves
 from lin import LinForm
 import mirlib
@@ -773,7 +773,16 @@ def m_slice_iter(c):
     # quantified outcome (any() == false, all() == true) can be recorded on the container's summary element
     c.ret(Iter("slice", ln, arr.elem if not arr.elem.is_bot() else Top(), start=(loc if (loc is not None and not src) else None),
                extra=("refmut", src) if src else "ref",
-               cells=dict(arr.cells) if (arr.cells and not src) else None, pos=0), extras=((("rem",), l),))
+               cells=dict(arr.cells) if (arr.cells and not src) else None, pos=0,
+               seen=(BOT if (loc is not None and not src) else None)), extras=((("rem",), l),))
+
+
+def _is_mut_ref_arg(c, i):
+    """does the by-reference into_iter hand out mutable references?  Decided by the iterator type it returns: only the shared-reference
+    iterators of slices, vectors and deques count as immutable"""
+    ty = c.ret_ty() or {}
+    p = mirlib.strip_generics(ty.get("path", ""))
+    return p not in ("std::slice::Iter", "core::slice::Iter", "std::collections::vec_deque::Iter", "std::collections::vec_deque::iter::Iter")
 
 
 @model("std::iter::IntoIterator::into_iter")
@@ -794,8 +803,9 @@ def m_into_iter(c):
     if arr is not None:
         ln, l = len_lin(c, arr, aloc if aloc is not None else loc)
         byref = isinstance(v, Ref)
-        c.ret(Iter("slice", ln, arr.elem if not arr.elem.is_bot() else Top(), extra="ref" if byref else "val",
-                   cells=dict(arr.cells) if arr.cells else None, pos=0), extras=((("rem",), l),))
+        shared = byref and aloc is not None and not _is_mut_ref_arg(c, 0)
+        c.ret(Iter("slice", ln, arr.elem if not arr.elem.is_bot() else Top(), start=(aloc if shared else None), extra="ref" if byref else "val",
+                   cells=dict(arr.cells) if arr.cells else None, pos=0, seen=(BOT if shared else None)), extras=((("rem",), l),))
         return
     c.ret(Iter("opaque"))
 
@@ -993,6 +1003,7 @@ def m_next(c):
     rem = it.remaining if isinstance(it.remaining, Int) else usize()
     rvar = (loc[0], loc[1] + ("rem",))
     elem = it.elem if it.elem is not None and not it.elem.is_bot() else Top()
+    it = _absorb_last(c, c.st, it, loc)
     cases = []
     if rem.is_const():
         cases = [rem.lo]
@@ -1006,6 +1017,7 @@ def m_next(c):
                     c.I.assume_var(s, rvar, r0, True)
                     s.tag = tuple(x for x in s.tag if not (x[0] == "it" and x[1] == c.frame.uid and x[2] == c.bb)) + (("it", c.frame.uid, c.bb, r0),)
                 if r0 == 0:
+                    _exhausted(c, s, it)
                     c.ret(opt_none(), st=s)
                 else:
                     c.I.write_loc(s, rvar, Int.const(r0 - 1, 64, False))
@@ -1014,8 +1026,10 @@ def m_next(c):
                         el = it.cells.get(it.pos, elem)
                         cur = c.I.read_loc(s, loc)
                         if isinstance(cur, Iter):
-                            s.cells[loc[0]] = set_at(s.cells[loc[0]], loc[1], Iter(cur.ikind, cur.remaining, cur.elem, cur.start, cur.end, cur.extra, cur.cells, cur.pos + 1))
-                    c.ret(opt_some(_item(c, s, it, el, idx)), st=s)
+                            s.cells[loc[0]] = set_at(s.cells[loc[0]], loc[1], Iter(cur.ikind, cur.remaining, cur.elem, cur.start, cur.end, cur.extra, cur.cells, cur.pos + 1, cur.seen, cur.last))
+                    item = _item(c, s, it, el, idx)
+                    _note_last(c, s, loc, item)
+                    c.ret(opt_some(item), st=s)
             except Infeasible:
                 pass
         return
@@ -1024,6 +1038,7 @@ def m_next(c):
         s0 = c.fork()
         try:
             c.I.assume_var(s0, rvar, 0, True)
+            _exhausted(c, s0, it)
             c.ret(opt_none(), st=s0)
         except Infeasible:
             pass
@@ -1037,10 +1052,66 @@ def m_next(c):
         s1.kill_cell(tmp)
         cur = c.I.read_loc(s1, loc)
         if isinstance(cur, Iter) and cur.pos is not None:
-            s1.cells[loc[0]] = set_at(s1.cells[loc[0]], loc[1], Iter(cur.ikind, cur.remaining, cur.elem, cur.start, cur.end, cur.extra, None, None))
-        c.ret(opt_some(_item(c, s1, it, elem, 99)), st=s1)
+            s1.cells[loc[0]] = set_at(s1.cells[loc[0]], loc[1], Iter(cur.ikind, cur.remaining, cur.elem, cur.start, cur.end, cur.extra, None, None, cur.seen, cur.last))
+        item = _item(c, s1, it, elem, 99)
+        _note_last(c, s1, loc, item)
+        c.ret(opt_some(item), st=s1)
     except Infeasible:
         pass
+
+
+def _tracked(it):
+    return isinstance(it, Iter) and it.seen is not None and it.extra == "ref" and isinstance(it.start, tuple)
+
+
+def _absorb_last(c, st, it, loc):
+    """loop-universal inference, step 1 (at every next()): what the code between the previous next() and this one has established about
+    the item it was given — the item's own cell, refined by the branches taken — is accumulated in `seen`"""
+    if not _tracked(it):
+        return it
+    seen = it.seen
+    if it.last is not None:
+        prev = st.cells.get(it.last)
+        seen = join_val(seen, prev) if prev is not None else None
+    new = Iter(it.ikind, it.remaining, it.elem, it.start, it.end, it.extra, it.cells, it.pos, seen, None)
+    st.cells[loc[0]] = set_at(st.cells[loc[0]], loc[1], new)
+    return new
+
+
+def _note_last(c, st, loc, item):
+    cur = c.I.read_loc(st, loc)
+    if not _tracked(cur):
+        return
+    last = item.cell if isinstance(item, Ref) and item.path == () else None
+    if last is None:
+        new = Iter(cur.ikind, cur.remaining, cur.elem, cur.start, cur.end, cur.extra, cur.cells, cur.pos, None, None)
+    else:
+        new = Iter(cur.ikind, cur.remaining, cur.elem, cur.start, cur.end, cur.extra, cur.cells, cur.pos, cur.seen, last)
+    st.cells[loc[0]] = set_at(st.cells[loc[0]], loc[1], new)
+
+
+def _exhausted(c, st, it):
+    """loop-universal inference, step 2 (next() == None): the iterator was created over the whole container by shared reference — which the
+    borrow checker keeps unchanged while the iterator lives — and has now yielded every element; each one satisfied `seen` when control
+    came back.  The container's summary element is met with it (variants and ranges no element can have are removed); an empty meet means
+    the container is empty"""
+    if not _tracked(it) or it.seen.is_bot():
+        return
+    src = it.start
+    if any(x == "elem" for x in src[1]):
+        return                      # a container inside a summarised element: no strong update
+    cur = c.I.read_loc(st, src)
+    if not isinstance(cur, Arr) or cur.cells:
+        return
+    new_elem = meet_val(cur.elem, it.seen)
+    if new_elem.is_bot():
+        lv = (src[0], src[1] + ("len",))
+        if st.leaf(lv) is not None:
+            c.I.assume_var(st, lv, 0, True)
+        return
+    if new_elem is not cur.elem and new_elem != cur.elem:
+        st.cells[src[0]] = set_at(st.cells[src[0]], src[1], Arr(cur.len, new_elem, None, cur.container, cur.view_of))
+        c.I.emit("universal", call=c, src=src, elem=new_elem)
 
 
 @model("std::iter::Iterator::enumerate")
